@@ -95,6 +95,7 @@ type progOpts struct {
 	jsSafe     bool // stay inside the subset both backends define (C04)
 	taint      bool
 	directives bool
+	nastyLits  bool // string literals and map keys with quotes, backslashes, line terminators, </script>, astral runes (C14)
 }
 
 type progGen struct {
@@ -117,7 +118,20 @@ func (g *progGen) fresh(prefix string) string {
 
 var strPool = []string{"a", "hello", "x y", "", "<b>", "a&b", "it's", "q\"q", "é", "日本", "line\nbreak", "tab\there", "back\\slash", "1", "0", "true", "</script>", "{", "}"}
 
+var nastyPool = []string{"q\"q", "a'b", "back\\slash", "line\nbreak", "</script>", "\u2028", "\u2029", "\U0001F600", "\u00e9\u00ad", "\x01", "x\ty", "<!--", "]]>", "a\"b'c\\d\r\n", "\\", "'"}
+
+// nastyKey is an extra map-literal entry with a hostile key (only with nastyLits).
+func (g *progGen) nastyKey() string {
+	if !g.o.nastyLits || !g.r.Chance(50) {
+		return ""
+	}
+	return ", " + soyStr(g.r.Pick(nastyPool)) + ": " + g.intLit()
+}
+
 func (g *progGen) strLit() string {
+	if g.o.nastyLits && g.r.Chance(40) {
+		return soyStr(g.r.Pick(nastyPool))
+	}
 	s := g.r.Pick(strPool)
 	for strings.ContainsAny(s, "{}") || (g.o.jsSafe && strings.ContainsAny(s, "\n")) {
 		s = g.r.Pick(strPool)
@@ -187,7 +201,7 @@ func (g *progGen) expr(env genv, k kind, d int) string {
 			}
 			return "[" + g.intLit() + "]"
 		case kRec:
-			return "['a': " + g.intLit() + ", 'b': " + g.strLit() + ", 'c': [" + g.intLit() + ", " + g.intLit() + "]]"
+			return "['a': " + g.intLit() + ", 'b': " + g.strLit() + ", 'c': [" + g.intLit() + ", " + g.intLit() + "]" + g.nastyKey() + "]"
 		case kOptInt:
 			if g.r.Bool() {
 				return "null"
@@ -377,7 +391,7 @@ func (g *progGen) expr(env genv, k kind, d int) string {
 			g.feat("augmentMap")
 			return "augmentMap(" + g.use(rv[g.r.Intn(len(rv))]) + ", ['a': " + e(kInt) + "])"
 		}
-		return "['a': " + e(kInt) + ", 'b': " + e(kStr) + ", 'c': " + e(kListInt) + "]"
+		return "['a': " + e(kInt) + ", 'b': " + e(kStr) + ", 'c': " + e(kListInt) + g.nastyKey() + "]"
 	case kOptInt:
 		if g.r.Bool() {
 			return "null"
